@@ -481,6 +481,50 @@ def h_filters(I, cn_fi, dup_fi, cols_fi):
         P.check("filter.defaults", got == want and all(e[1] is df for e in sets), "a missing error_rate column is filled with 0.001 and a missing tumour_content column with 1.0, for every row; present columns are left alone", kind="term")
 
 
+def h_raw_df(I, fi):
+    """_create_raw_data_df: the file is parsed as a tab-separated table and, if that gives a single column, as a comma-separated one; in BOTH parses the two identifier
+    columns go through the converter `str`. Assumed contract of pandas (documented: a column with a converter is handed the raw cell text, so neither type inference
+    ("01" -> 1) nor NA detection ("NA", "null", "None" -> missing) touches it; `dtype=str` still applies NA detection). Finding F14."""
+    P = I.P
+    del LOG[:]
+    calls = []
+
+    class Pd(Model):
+        def m_read_table(self, I_, *a, **k):
+            calls.append(("read_table", a, k))
+            return E("parsed", "tab")
+
+        def m_read_csv(self, I_, *a, **k):
+            calls.append(("read_csv", a, k))
+            return E("parsed", "comma")
+
+    I.registry.globals_override["pd"] = Pd()
+    one_col = P.decide(2) == 1
+    n = alg.sym("n_columns", "Int")
+    P.assume(P.z(n) == 1 if one_col else P.z(n) >= 2)
+    out = I.call_function(fi, [("file",)], {}, force_inline=True)
+    dsl.cover(I, "raw.comma-separated" if one_col else "raw.tab-separated")
+
+    def verbatim(c):
+        kw = c[2]
+        conv = kw.get("converters")
+        data = getattr(conv, "data", conv)
+        try:
+            items = dict(data.items()) if hasattr(data, "items") else dict(data)
+        except Exception:
+            return False
+        is_str = lambda f: f is str or getattr(f, "name", None) in ("str", "builtins.str") or getattr(f, "fn", None) is str
+        return c[1] == (("file",),) and all(col in items and is_str(items[col]) for col in ("mutation_id", "sample_id")) \
+            and not any(x in kw for x in ("na_values", "na_filter", "keep_default_na", "usecols", "nrows", "skiprows", "header", "index_col"))
+
+    want = ["read_table", "read_csv"] if one_col else ["read_table"]
+    P.check("raw.parse-order", [c[0] for c in calls] == want, "tab-separated parse first; the comma-separated parse exactly when the first one yields a single column", kind="post")
+    P.check("raw.identifiers-verbatim", bool(calls) and all(verbatim(c) for c in calls),
+            "every parse of the input file reads the mutation_id and sample_id columns through the converter `str` (raw cell text: no numeric inference, no NA detection), with no option that drops rows or columns", kind="term")
+    final = E("parsed", "comma" if one_col else "tab")
+    P.check("raw.result", isinstance(out, E) and _same(out.t, final.t), "the table of the last parse is returned", kind="post")
+
+
 def h_load_pyclone(I, fi):
     P = I.P
     log = []
@@ -512,3 +556,4 @@ def verify_all(ctx, repo, prop="C17"):
     dsl.verify(ctx, repo, dsl.Registry(), prop, [PYC + "._remove_cn_zero_mutations", PYC + "._remove_duplicated_and_partially_absent_mutations", PYC + "._process_required_cols_on_df"], h_filters,
                expect_covers=["filter.zero-copy-number", "filter.rows-per-mutation", "filter.defaults"])
     dsl.verify(ctx, repo, dsl.Registry(), prop, PYC + ".load_pyclone_data", h_load_pyclone, expect_covers=["load_pyclone_data"])
+    dsl.verify(ctx, repo, dsl.Registry(), prop, PYC + "._create_raw_data_df", h_raw_df, expect_covers=["raw.tab-separated", "raw.comma-separated"])
